@@ -97,6 +97,16 @@ fn fail(kind: &str, stage: &str, fmt: &str, detail: String, case: &Value) -> Vio
 }
 
 /// One staged pipeline under one configuration.
+/// one of the spellings the command line accepts for a format name (aliases, any letter case)
+fn spelling(fmt: &str, k: usize) -> String {
+    let v: &[&str] = match fmt {
+        "lisp" => &["lisp", "sexp", "sexpr", "LISP", "SExpr", "Sexp"],
+        "json" => &["json", "JSON", "Json"],
+        _ => &["yaml", "YAML", "Yaml"],
+    };
+    v[k % v.len()].to_string()
+}
+
 fn staged(w: &mut Work, b: &Baseline, fmt: &str, cfg: &Cfg, case: &Value) -> Result<(), Violation> {
     let herr = |e: std::io::Error| Violation::new("harness-error", format!("cannot run fml: {}", e), json!({}));
     // one directory per worker, reused for every program and configuration: artefacts are
@@ -115,7 +125,7 @@ fn staged(w: &mut Work, b: &Baseline, fmt: &str, cfg: &Cfg, case: &Value) -> Res
     let ast_file: Option<PathBuf> = match cfg.parse_out {
         ParseOut::FileExplicit => {
             let f = dir.join("tree");
-            args.extend(["-o".to_string(), f.to_string_lossy().into(), "--format".into(), fmt.to_string()]);
+            args.extend(["-o".to_string(), f.to_string_lossy().into(), "--format".into(), spelling(fmt, b.src.len())]);
             Some(f)
         }
         ParseOut::FileInferred => {
@@ -135,7 +145,7 @@ fn staged(w: &mut Work, b: &Baseline, fmt: &str, cfg: &Cfg, case: &Value) -> Res
             Some(d.join(if cfg.parse_stdin { format!("ast.{}", fmt) } else { format!("prog.{}", fmt) }))
         }
         ParseOut::Stdout => {
-            args.extend(["--format".to_string(), fmt.to_string()]);
+            args.extend(["--format".to_string(), spelling(fmt, b.src.len() / 3)]);
             None
         }
     };
@@ -200,7 +210,7 @@ fn staged(w: &mut Work, b: &Baseline, fmt: &str, cfg: &Cfg, case: &Value) -> Res
     }
     let inferable = compile_input.as_ref().and_then(|f| f.extension()).map(|e| e.to_string_lossy().to_lowercase() == fmt).unwrap_or(false);
     if cfg.compile_explicit || !inferable {
-        args.extend(["--input-format".to_string(), if cfg.exec_stdin { fmt.to_uppercase() } else { fmt.to_string() }]);
+        args.extend(["--input-format".to_string(), if cfg.exec_stdin { fmt.to_uppercase() } else { spelling(fmt, b.src.len() / 7) }]);
     }
     let bc_file: Option<PathBuf> = match cfg.compile_out {
         CompileOut::File => {
